@@ -673,11 +673,12 @@ def traceStep (st : DState) (impl : String) : String :=
           let topOk := sortNat top == sortNat nums
           let br := " br=" ++ ",".intercalate (["replay"] ++ brs)
           if brs.contains "WRONG-DISJUNCTION-KIND" then
-            "disjunction-kind-differs-from-takeover-constant" ++ sep ++ "bad:disjunction-slice-heap-switch" ++ br
+            -- a break of the correspondence (model constant vs real tree), not a verdict on the implementation
+            "replay-mismatch disjunction-kind-differs-from-the-takeover-constant-of-the-model" ++ sep ++ "na" ++ br
           else match errs with
-          | e :: _ => "replay-mismatch " ++ e ++ sep ++ "bad:node-replay " ++ e ++ br
+          | e :: _ => "replay-mismatch " ++ e ++ sep ++ "na" ++ br
           | [] =>
-            if !topOk then "replay-top-differs" ++ sep ++ "bad:node-replay top-level answers differ from the collected documents" ++ br
+            if !topOk then "replay-mismatch top-level-answers-differ-from-the-collected-documents" ++ sep ++ "na" ++ br
             else impl ++ sep ++ "ok" ++ br
         | none => impl ++ sep ++ "na br=replay-unparsed"
       | _, _ => impl ++ sep ++ "na br=replay-unparsed"
